@@ -10,7 +10,7 @@ class C08(Prop):
     check_module = "Moc.Check.C08Check"
     harness_bin = "core"
     harness_sub = "c08"
-    case_imports = ["Moc.Match", "Moc.Merge"]
+    case_imports = ["Moc.Match", "Moc.Merge", "Moc.MergeMulti"]
     sizes = {"quick": 1500, "thorough": 40000}
     gen_names = ("g_merge_too_few", "g_eose_already", "g_eose_incomplete", "g_event_unsendable",
                  "g_req_seteose_absent", "g_req_alleose_missing", "g_req_alleose_delete",
@@ -21,13 +21,19 @@ class C08(Prop):
             "sometimes not; duplicates across children from a pool of 3-8 events with timestamps 0..4), EOSE "
             "(sometimes never, sometimes twice), live events'; scripts are interleaved at random with each other and "
             "with client CLOSE, a second subscription, re-issued REQs, NOTICE/CLOSED and a little EVENT/OK traffic; "
-            "filters: 1-2, mostly wide, limit 0..4 in 60%; non-trivial = the merged EOSE was emitted and before it at "
+            "filters: 1-2, mostly wide, limit 0..4 in 60%; in every tier 24 histories with many children (31, 32, 33, 63, 64, 65, "
+            "66, 70 children: one REQ, every child but one sends 'sometimes an event, EOSE' in random order, the remaining "
+            "child — the first, the last, a random one — answers last, then a live event); n/10 more histories in which ONE "
+            "handler value serves 2-3 sessions, each with a history of its own from the same generator (same subscription "
+            "ids, overlapping event pools), interleaved at random and judged session by session; non-trivial = the merged EOSE was emitted and before it at "
             "least one event was forwarded and one dropped; distinct = distinct JSON of the inputs")
     trusted_base = COMMON_TRUSTED + [
         "the scripted-children driver harness/cmd/core/merge_driver.go (sentinel protocol: per-child FIFO through "
         "one forwarder and the single handleSend loop)",
         "atomicity of the critical sections of mergeHandlerSession (state passed through 1-slot channels) — Go "
         "memory model; the unbuffered plumbing between them is C13's",
+        "several sessions: a scripted child learns the session of a ServeNostr call from a context value that the merge "
+        "handler hands down to its children",
     ]
     assumptions = [
         "child indices are in range, events carry no empty tag, REQ filter lists are non-nil and decoder-producible "
@@ -40,20 +46,22 @@ class C08(Prop):
         return mc.ccase(I, c)
 
     def nontrivial_key(self, c):
-        eose = fwd = drop = False
+        # per session: the merged EOSE was emitted, and before it one event was forwarded and one dropped
+        eose, fwd, drop = set(), set(), set()
         for st in c.get("steps") or []:
             if st["k"] != "child":
                 continue
+            ss = st.get("s", 0)
             t = st["m"]["t"]
             out = st.get("out") or []
             if t == "eose" and out:
-                eose = True
-            if t == "event" and not eose:
+                eose.add(ss)
+            if t == "event" and ss not in eose:
                 if out:
-                    fwd = True
+                    fwd.add(ss)
                 else:
-                    drop = True
-        if eose and fwd and drop:
+                    drop.add(ss)
+        if eose & fwd & drop:
             return json.dumps(mc.strip(c), sort_keys=True)
         return None
 
@@ -74,11 +82,20 @@ class C08(Prop):
     def distribution(self, cases):
         d = {"histories": len(cases), "children_2": 0, "children_3": 0, "children_4": 0, "steps": 0,
              "client_req": 0, "client_close": 0, "child_eose": 0, "merged_eose": 0, "child_event": 0,
-             "events_forwarded": 0, "events_dropped": 0, "failed_runs": 0}
+             "events_forwarded": 0, "events_dropped": 0, "histories_with_31_or_more_children": 0,
+             "histories_with_65_or_more_children": 0, "histories_with_2_sessions": 0, "histories_with_3_sessions": 0,
+             "failed_runs": 0}
         for c in cases:
             d["children_%d" % c["n"]] = d.get("children_%d" % c["n"], 0) + 1
             if c.get("fail"):
                 d["failed_runs"] += 1
+            if c["n"] >= 31:
+                d["histories_with_31_or_more_children"] += 1
+            if c["n"] >= 65:
+                d["histories_with_65_or_more_children"] += 1
+            if mc.nsessions(c) > 1:
+                key = "histories_with_%d_sessions" % mc.nsessions(c)
+                d[key] = d.get(key, 0) + 1
             for st in c.get("steps") or []:
                 d["steps"] += 1
                 k = st["k"]
